@@ -49,7 +49,7 @@ THEOREMS = [
 RULE = (
     "real CanonicalCriteria/HamiltonianCanonicalCriteria/IsobaricCriteria/IsotensionCriteria/GrandCanonicalCriteria "
     ".evaluate on real Displacement/HamiltonianDisplacement/Deformation/Exchange contexts over real Atoms (cubic, "
-    "tetragonal, triclinic, sheared cells; 0..500 atoms / exchange particles; dE log-uniform in +-[1e-9,1e4] eV and 0; "
+    "tetragonal, triclinic, sheared cells; 0..500 atoms / exchange particles (isobaric/isotension also 4e3..1.5e5 atoms); dE log-uniform in +-[1e-9,1e4] eV and 0; "
     "T in [1e-2,1e4] K; pressures, chemical potentials, full stress tensors incl. hydrostatic and shear; delta in "
     "{+1,-1,+2,-2}) with a constant-energy ASE calculator and a scripted generator; half of the cases are steered so "
     "that log A falls in [-40,3]; a case is non-trivial when at least one decision was observed; distinct = distinct inputs; "
@@ -399,6 +399,9 @@ def gen_case(rng, kind):
     c = {"kind": kind}
     c["T"] = float(logu(rng, -2, 4))
     c["natoms"] = rng.choice([0, 1, 2, 3, 4, 8, 20, 100, 500]) if rng.random() < 0.7 else rng.randint(0, 500)
+    if kind in ("npt", "nst") and rng.random() < 0.06:
+        # very large systems: (N+1)·log(V'/V) far beyond 709 while the energy term pulls log A back into range
+        c["natoms"] = rng.choice([4000, 20000, 80000, 150000])
     ct, c["cell0"] = gen_cell(rng)
     c["celltype"] = ct
     c["E0"] = 0.0 if rng.random() < 0.5 else float(-rng.uniform(0, 5) * max(c["natoms"], 1))
